@@ -66,6 +66,34 @@ Theorem C11_result_handles_entinfo : forall n rs, List.length rs = n ->
   handles_at gen_EXEC_OK_FIELDS gen_okk_fields gen_entinfo_stride gen_entinfo_handle entinfo_spec n rs.
 Proof. exact (handles_read_pair_i _ _ _ _ _ C11_entinfo_tables_ok). Qed.
 
+(* (3b) min_fidelity_all_at_end retry loops: for ALL n, any exit test, any number of tries and any
+   attempts the link layer answers: when the loop ends with an accepted attempt, the handles read pair
+   i's response of THAT attempt, not of a discarded one *)
+Theorem C11_retry_handles_keep : forall n acc undef tries attempts,
+  (forall rs, In rs attempts -> List.length rs = n) ->
+  retry_handles_at gen_EXEC_OK_FIELDS gen_okk_fields gen_keep_stride gen_keep_handle keep_spec n acc undef tries attempts.
+Proof. exact (retry_handles_read_accepted_attempt _ _ _ _ _ C11_keep_tables_ok). Qed.
+Theorem C11_retry_handles_measure : forall n acc undef tries attempts,
+  (forall rs, In rs attempts -> List.length rs = n) ->
+  retry_handles_at gen_EXEC_OK_FIELDS gen_okm_fields gen_measure_stride gen_measure_handle measure_spec n acc undef tries attempts.
+Proof. exact (retry_handles_read_accepted_attempt _ _ _ _ _ C11_measure_tables_ok). Qed.
+Theorem C11_retry_handles_entinfo : forall n acc undef tries attempts,
+  (forall rs, In rs attempts -> List.length rs = n) ->
+  retry_handles_at gen_EXEC_OK_FIELDS gen_okk_fields gen_entinfo_stride gen_entinfo_handle entinfo_spec n acc undef tries attempts.
+Proof. exact (retry_handles_read_accepted_attempt _ _ _ _ _ C11_entinfo_tables_ok). Qed.
+
+(* non-vacuity: two pairs, the first attempt is too slow and discarded, the second accepted *)
+Example C11_retry_nonvacuous :
+  let r (k : Z) : resp := fun f => if String.eqb f "goodness" then k else k * 100 + Z.of_nat (String.length f) in
+  let acc := fun rs : list resp => match List.rev rs with x :: _ => x "goodness" <=? 28000 | [] => false end in
+  match retry_run gen_EXEC_OK_FIELDS gen_okk_fields acc true 3 (repeat None (gen_keep_stride * 2))
+                  [[r 50000; r 60000]; [r 7; r 9]; [r 1; r 2]] with
+  | Some arr => map (fun a => handle_read gen_keep_stride (snd a) arr 1) gen_keep_handle
+  | None => []
+  end = [Some (Some 916); Some (Some 914); Some (Some 9); Some (Some 910)] /\
+  option_map (@List.length resp) (accepted_attempt acc 3 [[r 50000; r 60000]; [r 7; r 9]; [r 1; r 2]]) = Some 2%nat.
+Proof. vm_compute. split; reflexivity. Qed.
+
 (* (4) a Bell state reported through qlink-interface 1.0 is decoded by the SDK as the
    state of the same name (both numberings regenerated; finite) *)
 Theorem C11_bell_state_by_name :
@@ -112,4 +140,7 @@ Print Assumptions C11_qlink_accepts.
 Print Assumptions C11_result_handles_keep.
 Print Assumptions C11_result_handles_measure.
 Print Assumptions C11_result_handles_entinfo.
+Print Assumptions C11_retry_handles_keep.
+Print Assumptions C11_retry_handles_measure.
+Print Assumptions C11_retry_handles_entinfo.
 Print Assumptions C11_bell_state_by_name.
